@@ -611,6 +611,7 @@ func runC07(c *Ctx) {
 	checkDHCPInPlace(c)
 	checkDHCPNak(c)
 	checkMulticastPair(c)
+	checkPrefixCopy(c)
 	checkOptionsSent(c)
 
 	// ---- checksum order ----
@@ -1374,6 +1375,35 @@ func wholeStored(al *ssa.Alloc) bool {
 		}
 	}
 	return false
+}
+
+// checkPrefixCopy: the prefix option of a router advertisement carries the prefix the caller gave: PrefixInformation.marshal
+// copies the whole 16-byte field (raw.Value[14:30] = pi.Prefix), with bounds that do not depend on the prefix length
+// (copying PrefixLength/8 bytes drops the last, partly used byte of a /60).
+func checkPrefixCopy(c *Ctx) {
+	c.R.Rule("prefix-copy", "PrefixInformation.marshal copies the whole prefix field", 1)
+	fn := c.P.Method("", "PrefixInformation", "marshal")
+	if fn == nil {
+		c.R.Add(core.Obligation{Rule: "prefix-copy", Key: "prefix-copy PrefixInformation.marshal", Status: core.Undecided, Detail: "function not found"})
+		return
+	}
+	n := 0
+	core.EachInstr(fn, func(i ssa.Instruction) {
+		call, ok := isBuiltinCall(i, "copy")
+		if !ok || !strings.HasSuffix(norm(call.Call.Args[1]), "recv.Prefix") {
+			return
+		}
+		n++
+		st, det := core.Violated, "the prefix is copied into "+norm(call.Call.Args[0])+": the destination does not span the whole 16-byte prefix field, so part of the caller's prefix is not sent"
+		if sl, isS := call.Call.Args[0].(*ssa.Slice); isS && sl.Low != nil && sl.High != nil && norm(sl.Low) == "14" && norm(sl.High) == "30" {
+			st, det = core.Proved, ""
+		}
+		c.R.Add(core.Obligation{Rule: "prefix-copy", Key: "prefix-copy PrefixInformation.marshal", Func: core.FuncName(fn), Pos: c.P.Pos(core.PosOf(i)), Status: st,
+			Basis: "copy(raw.Value[14:30], pi.Prefix)", Detail: det})
+	})
+	if n == 0 {
+		c.R.Add(core.Obligation{Rule: "prefix-copy", Key: "prefix-copy PrefixInformation.marshal", Func: core.FuncName(fn), Status: core.Violated, Detail: "no copy of pi.Prefix found in marshal"})
+	}
 }
 
 // checkMulticastPair: the library's multicast destinations come as ready-made pairs of group address and 33:33 MAC
